@@ -98,9 +98,6 @@ theorem normL_stdmodel_note (M : FlModel) [SqrtStd M] (hu : M.u = 1 / 2 ^ 53) (x
   rw [hu]
   norm_num
 
-/-- deprecated alias of `normL_stdmodel_note` (the `f64_` prefix wrongly suggested a statement about IEEE binary64; kept only
-until the `REQUIRED_THEOREMS` wiring is updated) -/
-alias normL_f64_note := normL_stdmodel_note
 
 /-! ### necessity of the mean-dependent term in the Welford bound -/
 
